@@ -281,7 +281,9 @@ impl FromStr for ISRCString {
         filter_split(&isrc, 2, |c| c.is_ascii_alphabetic())
             .and_then(|s| filter_split(s, 3, |c| c.is_ascii_alphanumeric()))
             .and_then(|s| filter_split(s, 2, |c| c.is_ascii_digit()))
-            .and_then(|s| s.chars().all(|c| c.is_ascii_digit()).then_some(()))
+            // the designation code is exactly five digits:
+            // an ISRC has 12 characters, which is what its field holds
+            .and_then(|s| (s.len() == 5 && s.chars().all(|c| c.is_ascii_digit())).then_some(()))
             .map(|()| ISRCString(isrc.into_owned()))
             .ok_or(CuesheetError::InvalidISRC)
     }
